@@ -1,12 +1,13 @@
 """C17 -- the tdda command line gives the same constraints and verdicts as the library."""
 from runner.core import Context, finish
 
-MODULES = ['contracts.cli']
+MODULES = ['contracts.cli', 'contracts.pdio']
 PID = 'C17'
 
 
 def targets():
     import contracts.cli
+    import contracts.pdio
     from pyvc.contracts import REGISTRY
     return [i for i, c in REGISTRY.items() if not c.assumed and 'C17' in c.props]
 
